@@ -180,10 +180,11 @@ func (ans *answer) Return(e error) {
 		case <-ans.c.bgctx.Done():
 		default:
 			ans.c.tasks.Done() // added by handleCall
-			if err := ans.c.shutdown(err); err != nil {
-				ans.c.report(err)
-			}
-			// shutdown released c.mu
+			ans.c.mu.Unlock()
+			// Shut down from a separate goroutine: shutdown releases the
+			// exported clients, and releasing a local server waits for its
+			// ongoing calls, one of which may be the caller of Return.
+			go ans.c.abort(err)
 			rl.release()
 			ans.pcalls.Wait()
 			return
